@@ -274,6 +274,7 @@ package stree
 //@ pred treeRO(n *node[T], cmp func(T, T) int) := n != nil ==> allocated(n) && n in n.desc
 //@+     && (forall y *node[T] :: {y in n.desc} y in n.desc ==> y != nil && allocated(y) && local(y, cmp) && closedRO(y))
 //@ pred treeInvRO(t *Tree[T]) := t != nil && treeRO(t.root, t.compare) && (forall k int :: {k in t.elems} k in t.elems <==> inK(t.root, k))
+//@+     && (forall k int :: {t.vals[k]} k in t.elems ==> t.vals[k] == t.root.rep[k])
 //@ pred ordPath(p []*node[T], cmp func(T, T) int) := len(p) > 0 ==> treeRO(p[0], cmp)
 //@+     && (forall j int :: {p[j]} 0 <= j && j < len(p) ==> p[j] in p[0].desc)
 //@+     && (forall j int, k int, m int :: {p[j], k in p[0].keys, m in p[j].keys} 0 <= j && j < len(p) && k in p[0].keys && !(k in p[j].keys) && m in p[j].keys ==> ((k < m) <==> (k < rank(cmp, p[j].X))))
@@ -284,9 +285,9 @@ package stree
 //@   ensures result == (c != nil && len(c.path) != 0)
 //@
 //@ func (*Cursor).Key
-//@   requires [C03] c != nil ==> pathOK(c)
-//@   ensures  [C03] valid: c != nil && len(c.path) != 0 ==> result == cur(c).X
-//@   ensures  [C03] invalid: c == nil || len(c.path) == 0 ==> result == zero
+//@   requires [C03,C04] c != nil ==> pathOK(c)
+//@   ensures  [C03,C04] valid: c != nil && len(c.path) != 0 ==> result == cur(c).X
+//@   ensures  [C03,C04] invalid: c == nil || len(c.path) == 0 ==> result == zero
 //@
 //@ func (*Cursor).HasLeft
 //@   requires [C03] c != nil ==> pathOK(c)
@@ -329,37 +330,37 @@ package stree
 //@
 //@ func (*Cursor).Min
 //@   ghost cmp func(T, T) int
-//@   requires [C03] c != nil ==> pathOK(c) && ordPath(c.path, cmp)
-//@   ensures  [C03] same: result == c && (c != nil ==> pathOK(c) && ordPath(c.path, cmp))
-//@   ensures  [C03] least: c != nil && old(len(c.path)) != 0 ==> rank(cmp, cur(c).X) in old(cur(c)).keys && forall k int :: {k in old(cur(c)).keys} k in old(cur(c)).keys ==> k >= rank(cmp, cur(c).X)
-//@   ensures  [C03] bottom: c != nil && old(len(c.path)) != 0 ==> len(c.path) >= old(len(c.path)) && cur(c).left == nil
-//@   ensures  [C03] leftward: c != nil ==> forall a int, b int :: {c.path[a], c.path[b]} old(len(c.path)) <= b && b == a + 1 && b < len(c.path) ==> c.path[b] == c.path[a].left
-//@   ensures  [C03] prefix: c != nil ==> samePrefix(c, old(len(c.path)))
-//@   ensures  [C03] invalid: c != nil && old(len(c.path)) == 0 ==> len(c.path) == 0
+//@   requires [C03,C04] c != nil ==> pathOK(c) && ordPath(c.path, cmp)
+//@   ensures  [C03,C04] same: result == c && (c != nil ==> pathOK(c) && ordPath(c.path, cmp))
+//@   ensures  [C03,C04] least: c != nil && old(len(c.path)) != 0 ==> rank(cmp, cur(c).X) in old(cur(c)).keys && forall k int :: {k in old(cur(c)).keys} k in old(cur(c)).keys ==> k >= rank(cmp, cur(c).X)
+//@   ensures  [C03,C04] bottom: c != nil && old(len(c.path)) != 0 ==> len(c.path) >= old(len(c.path)) && cur(c).left == nil
+//@   ensures  [C03,C04] leftward: c != nil ==> forall a int, b int :: {c.path[a], c.path[b]} old(len(c.path)) <= b && b == a + 1 && b < len(c.path) ==> c.path[b] == c.path[a].left
+//@   ensures  [C03,C04] prefix: c != nil ==> samePrefix(c, old(len(c.path)))
+//@   ensures  [C03,C04] invalid: c != nil && old(len(c.path)) == 0 ==> len(c.path) == 0
 //@   modifies c.path, backing(c.path)
-//@   loop 1: invariant [C03] shape: c != nil && len(c.path) >= old(len(c.path)) && len(c.path) > 0 && min == cur(c) && pathOK(c) && other_arrays_unchanged(c.path) && (c.path.base == old(c.path.base) || fresh(c.path))
-//@   loop 1: invariant [C03] prefix: samePrefix(c, old(len(c.path)))
-//@   loop 1: invariant [C03] leftward: forall a int, b int :: {c.path[a], c.path[b]} old(len(c.path)) <= b && b == a + 1 && b < len(c.path) ==> c.path[b] == c.path[a].left
-//@   loop 1: invariant [C03] ord: ordPath(c.path, cmp)
-//@   at after "min = min.left": assert [C03] min in c.path[0].desc
-//@   loop 1: invariant [C03] least: min in old(cur(c)).desc && rank(cmp, min.X) in old(cur(c)).keys && forall k int :: {k in old(cur(c)).keys} k in old(cur(c)).keys ==> k in min.keys || k > rank(cmp, min.X)
+//@   loop 1: invariant [C03,C04] shape: c != nil && len(c.path) >= old(len(c.path)) && len(c.path) > 0 && min == cur(c) && pathOK(c) && other_arrays_unchanged(c.path) && (c.path.base == old(c.path.base) || fresh(c.path))
+//@   loop 1: invariant [C03,C04] prefix: samePrefix(c, old(len(c.path)))
+//@   loop 1: invariant [C03,C04] leftward: forall a int, b int :: {c.path[a], c.path[b]} old(len(c.path)) <= b && b == a + 1 && b < len(c.path) ==> c.path[b] == c.path[a].left
+//@   loop 1: invariant [C03,C04] ord: ordPath(c.path, cmp)
+//@   at after "min = min.left": assert [C03,C04] min in c.path[0].desc
+//@   loop 1: invariant [C03,C04] least: min in old(cur(c)).desc && rank(cmp, min.X) in old(cur(c)).keys && forall k int :: {k in old(cur(c)).keys} k in old(cur(c)).keys ==> k in min.keys || k > rank(cmp, min.X)
 //@
 //@ func (*Cursor).Max
 //@   ghost cmp func(T, T) int
-//@   requires [C03] c != nil ==> pathOK(c) && ordPath(c.path, cmp)
-//@   ensures  [C03] same: result == c && (c != nil ==> pathOK(c) && ordPath(c.path, cmp))
-//@   ensures  [C03] greatest: c != nil && old(len(c.path)) != 0 ==> rank(cmp, cur(c).X) in old(cur(c)).keys && forall k int :: {k in old(cur(c)).keys} k in old(cur(c)).keys ==> k <= rank(cmp, cur(c).X)
-//@   ensures  [C03] bottom: c != nil && old(len(c.path)) != 0 ==> len(c.path) >= old(len(c.path)) && cur(c).right == nil
-//@   ensures  [C03] rightward: c != nil ==> forall a int, b int :: {c.path[a], c.path[b]} old(len(c.path)) <= b && b == a + 1 && b < len(c.path) ==> c.path[b] == c.path[a].right
-//@   ensures  [C03] prefix: c != nil ==> samePrefix(c, old(len(c.path)))
-//@   ensures  [C03] invalid: c != nil && old(len(c.path)) == 0 ==> len(c.path) == 0
+//@   requires [C03,C04] c != nil ==> pathOK(c) && ordPath(c.path, cmp)
+//@   ensures  [C03,C04] same: result == c && (c != nil ==> pathOK(c) && ordPath(c.path, cmp))
+//@   ensures  [C03,C04] greatest: c != nil && old(len(c.path)) != 0 ==> rank(cmp, cur(c).X) in old(cur(c)).keys && forall k int :: {k in old(cur(c)).keys} k in old(cur(c)).keys ==> k <= rank(cmp, cur(c).X)
+//@   ensures  [C03,C04] bottom: c != nil && old(len(c.path)) != 0 ==> len(c.path) >= old(len(c.path)) && cur(c).right == nil
+//@   ensures  [C03,C04] rightward: c != nil ==> forall a int, b int :: {c.path[a], c.path[b]} old(len(c.path)) <= b && b == a + 1 && b < len(c.path) ==> c.path[b] == c.path[a].right
+//@   ensures  [C03,C04] prefix: c != nil ==> samePrefix(c, old(len(c.path)))
+//@   ensures  [C03,C04] invalid: c != nil && old(len(c.path)) == 0 ==> len(c.path) == 0
 //@   modifies c.path, backing(c.path)
-//@   loop 1: invariant [C03] shape: c != nil && len(c.path) >= old(len(c.path)) && len(c.path) > 0 && max == cur(c) && pathOK(c) && other_arrays_unchanged(c.path) && (c.path.base == old(c.path.base) || fresh(c.path))
-//@   loop 1: invariant [C03] prefix: samePrefix(c, old(len(c.path)))
-//@   loop 1: invariant [C03] rightward: forall a int, b int :: {c.path[a], c.path[b]} old(len(c.path)) <= b && b == a + 1 && b < len(c.path) ==> c.path[b] == c.path[a].right
-//@   loop 1: invariant [C03] ord: ordPath(c.path, cmp)
-//@   at after "max = max.right": assert [C03] max in c.path[0].desc
-//@   loop 1: invariant [C03] greatest: max in old(cur(c)).desc && rank(cmp, max.X) in old(cur(c)).keys && forall k int :: {k in old(cur(c)).keys} k in old(cur(c)).keys ==> k in max.keys || k < rank(cmp, max.X)
+//@   loop 1: invariant [C03,C04] shape: c != nil && len(c.path) >= old(len(c.path)) && len(c.path) > 0 && max == cur(c) && pathOK(c) && other_arrays_unchanged(c.path) && (c.path.base == old(c.path.base) || fresh(c.path))
+//@   loop 1: invariant [C03,C04] prefix: samePrefix(c, old(len(c.path)))
+//@   loop 1: invariant [C03,C04] rightward: forall a int, b int :: {c.path[a], c.path[b]} old(len(c.path)) <= b && b == a + 1 && b < len(c.path) ==> c.path[b] == c.path[a].right
+//@   loop 1: invariant [C03,C04] ord: ordPath(c.path, cmp)
+//@   at after "max = max.right": assert [C03,C04] max in c.path[0].desc
+//@   loop 1: invariant [C03,C04] greatest: max in old(cur(c)).desc && rank(cmp, max.X) in old(cur(c)).keys && forall k int :: {k in old(cur(c)).keys} k in old(cur(c)).keys ==> k in max.keys || k < rank(cmp, max.X)
 //@
 //@ func (*Cursor).findNext
 //@   ghost cmp func(T, T) int
@@ -417,49 +418,51 @@ package stree
 //@
 //@ func (*Cursor).Next
 //@   ghost cmp func(T, T) int
-//@   requires [C03] c != nil ==> pathOK(c) && ordPath(c.path, cmp)
-//@   ensures  [C03] same: result == c && (c != nil ==> pathOK(c) && ordPath(c.path, cmp))
-//@   ensures  [C03] succ: c != nil && old(len(c.path)) != 0 && len(c.path) != 0 ==> rank(cmp, cur(c).X) > old(rank(cmp, cur(c).X)) && c.path[0] == old(c.path[0]) && forall k int :: {k in c.path[0].keys} k in c.path[0].keys ==> k <= old(rank(cmp, cur(c).X)) || k >= rank(cmp, cur(c).X)
-//@   ensures  [C03] last: c != nil && old(len(c.path)) != 0 && len(c.path) == 0 ==> forall k int :: {k in old(c.path[0]).keys} k in old(c.path[0]).keys ==> k <= old(rank(cmp, cur(c).X))
+//@   requires [C03,C04] c != nil ==> pathOK(c) && ordPath(c.path, cmp)
+//@   ensures  [C03,C04] same: result == c && (c != nil ==> pathOK(c) && ordPath(c.path, cmp))
+//@   ensures  [C03,C04] succ: c != nil && old(len(c.path)) != 0 && len(c.path) != 0 ==> rank(cmp, cur(c).X) > old(rank(cmp, cur(c).X)) && c.path[0] == old(c.path[0]) && forall k int :: {k in c.path[0].keys} k in c.path[0].keys ==> k <= old(rank(cmp, cur(c).X)) || k >= rank(cmp, cur(c).X)
+//@   ensures  [C03,C04] last: c != nil && old(len(c.path)) != 0 && len(c.path) == 0 ==> forall k int :: {k in old(c.path[0]).keys} k in old(c.path[0]).keys ==> k <= old(rank(cmp, cur(c).X))
 //@   call findNext#1: cmp = cmp
-//@   loop 1: invariant [C03] ord: ordPath(c.path, cmp)
-//@   loop 1: invariant [C03] least: len(c.path) > old(len(c.path)) ==> cur(c) in old(cur(c).right).desc && rank(cmp, cur(c).X) in old(cur(c).right).keys && forall k int :: {k in old(cur(c).right).keys} k in old(cur(c).right).keys ==> k in cur(c).keys || k > rank(cmp, cur(c).X)
-//@   ensures  [C03] invalid: c != nil && old(len(c.path)) == 0 ==> len(c.path) == 0
-//@   ensures  [C03] down: c != nil && old(len(c.path)) != 0 && old(cur(c).right) != nil ==> len(c.path) > old(len(c.path)) && samePrefix(c, old(len(c.path))) && cur(c).left == nil
-//@   ensures  [C03] downFirst: c != nil && old(len(c.path)) != 0 && old(cur(c).right) != nil ==> forall a int, b int :: {c.path[a], c.path[b]} b == old(len(c.path)) && b == a + 1 ==> c.path[b] == c.path[a].right
-//@   ensures  [C03] downRest: c != nil && old(len(c.path)) != 0 && old(cur(c).right) != nil ==> forall a int, b int :: {c.path[a], c.path[b]} old(len(c.path)) < b && b == a + 1 && b < len(c.path) ==> c.path[b] == c.path[a].left
-//@   ensures  [C03] up: c != nil && old(len(c.path)) != 0 && old(cur(c).right) == nil ==> len(c.path) < old(len(c.path)) && samePrefix(c, len(c.path))
-//@   ensures  [C03] upTurn: c != nil && old(len(c.path)) != 0 && old(cur(c).right) == nil && len(c.path) > 0 ==> forall a int, b int :: {old(c.path[a]), old(c.path[b])} b == len(c.path) && b == a + 1 ==> old(c.path[b]) == old(c.path[a].left)
-//@   ensures  [C03] upSkipped: c != nil && old(len(c.path)) != 0 && old(cur(c).right) == nil ==> forall a int, b int :: {old(c.path[a]), old(c.path[b])} len(c.path) <= a && b == a + 1 && b < old(len(c.path)) ==> old(c.path[b]) != old(c.path[a].left)
+//@   loop 1: invariant [C03,C04] ord: ordPath(c.path, cmp)
+//@   at before "c.path = append(c.path, min)": assert [C03,C04] min in c.path[0].desc && min in old(cur(c).right).desc
+//@   loop 1: invariant [C03,C04] least: len(c.path) > old(len(c.path)) ==> cur(c) in old(cur(c).right).desc && rank(cmp, cur(c).X) in old(cur(c).right).keys && forall k int :: {k in old(cur(c).right).keys} k in old(cur(c).right).keys ==> k in cur(c).keys || k > rank(cmp, cur(c).X)
+//@   ensures  [C03,C04] invalid: c != nil && old(len(c.path)) == 0 ==> len(c.path) == 0
+//@   ensures  [C03,C04] down: c != nil && old(len(c.path)) != 0 && old(cur(c).right) != nil ==> len(c.path) > old(len(c.path)) && samePrefix(c, old(len(c.path))) && cur(c).left == nil
+//@   ensures  [C03,C04] downFirst: c != nil && old(len(c.path)) != 0 && old(cur(c).right) != nil ==> forall a int, b int :: {c.path[a], c.path[b]} b == old(len(c.path)) && b == a + 1 ==> c.path[b] == c.path[a].right
+//@   ensures  [C03,C04] downRest: c != nil && old(len(c.path)) != 0 && old(cur(c).right) != nil ==> forall a int, b int :: {c.path[a], c.path[b]} old(len(c.path)) < b && b == a + 1 && b < len(c.path) ==> c.path[b] == c.path[a].left
+//@   ensures  [C03,C04] up: c != nil && old(len(c.path)) != 0 && old(cur(c).right) == nil ==> len(c.path) < old(len(c.path)) && samePrefix(c, len(c.path))
+//@   ensures  [C03,C04] upTurn: c != nil && old(len(c.path)) != 0 && old(cur(c).right) == nil && len(c.path) > 0 ==> forall a int, b int :: {old(c.path[a]), old(c.path[b])} b == len(c.path) && b == a + 1 ==> old(c.path[b]) == old(c.path[a].left)
+//@   ensures  [C03,C04] upSkipped: c != nil && old(len(c.path)) != 0 && old(cur(c).right) == nil ==> forall a int, b int :: {old(c.path[a]), old(c.path[b])} len(c.path) <= a && b == a + 1 && b < old(len(c.path)) ==> old(c.path[b]) != old(c.path[a].left)
 //@   modifies c.path, backing(c.path)
-//@   loop 1: invariant [C03] shape: c != nil && old(len(c.path)) != 0 && len(c.path) >= old(len(c.path)) && pathOK(c) && other_arrays_unchanged(c.path) && (c.path.base == old(c.path.base) || fresh(c.path))
-//@   loop 1: invariant [C03] prefix: samePrefix(c, old(len(c.path)))
-//@   loop 1: invariant [C03] cursor: (len(c.path) == old(len(c.path)) ==> min != nil && min == cur(c).right) && (len(c.path) > old(len(c.path)) ==> min == cur(c).left)
-//@   loop 1: invariant [C03] first: len(c.path) > old(len(c.path)) ==> forall a int, b int :: {c.path[a], c.path[b]} b == old(len(c.path)) && b == a + 1 ==> c.path[b] == c.path[a].right
-//@   loop 1: invariant [C03] rest: forall a int, b int :: {c.path[a], c.path[b]} old(len(c.path)) < b && b == a + 1 && b < len(c.path) ==> c.path[b] == c.path[a].left
+//@   loop 1: invariant [C03,C04] shape: c != nil && old(len(c.path)) != 0 && len(c.path) >= old(len(c.path)) && pathOK(c) && other_arrays_unchanged(c.path) && (c.path.base == old(c.path.base) || fresh(c.path))
+//@   loop 1: invariant [C03,C04] prefix: samePrefix(c, old(len(c.path)))
+//@   loop 1: invariant [C03,C04] cursor: (len(c.path) == old(len(c.path)) ==> min != nil && min == cur(c).right) && (len(c.path) > old(len(c.path)) ==> min == cur(c).left)
+//@   loop 1: invariant [C03,C04] first: len(c.path) > old(len(c.path)) ==> forall a int, b int :: {c.path[a], c.path[b]} b == old(len(c.path)) && b == a + 1 ==> c.path[b] == c.path[a].right
+//@   loop 1: invariant [C03,C04] rest: forall a int, b int :: {c.path[a], c.path[b]} old(len(c.path)) < b && b == a + 1 && b < len(c.path) ==> c.path[b] == c.path[a].left
 //@
 //@ func (*Cursor).Prev
 //@   ghost cmp func(T, T) int
-//@   requires [C03] c != nil ==> pathOK(c) && ordPath(c.path, cmp)
-//@   ensures  [C03] same: result == c && (c != nil ==> pathOK(c) && ordPath(c.path, cmp))
-//@   ensures  [C03] pred: c != nil && old(len(c.path)) != 0 && len(c.path) != 0 ==> rank(cmp, cur(c).X) < old(rank(cmp, cur(c).X)) && c.path[0] == old(c.path[0]) && forall k int :: {k in c.path[0].keys} k in c.path[0].keys ==> k >= old(rank(cmp, cur(c).X)) || k <= rank(cmp, cur(c).X)
-//@   ensures  [C03] first: c != nil && old(len(c.path)) != 0 && len(c.path) == 0 ==> forall k int :: {k in old(c.path[0]).keys} k in old(c.path[0]).keys ==> k >= old(rank(cmp, cur(c).X))
+//@   requires [C03,C04] c != nil ==> pathOK(c) && ordPath(c.path, cmp)
+//@   ensures  [C03,C04] same: result == c && (c != nil ==> pathOK(c) && ordPath(c.path, cmp))
+//@   ensures  [C03,C04] pred: c != nil && old(len(c.path)) != 0 && len(c.path) != 0 ==> rank(cmp, cur(c).X) < old(rank(cmp, cur(c).X)) && c.path[0] == old(c.path[0]) && forall k int :: {k in c.path[0].keys} k in c.path[0].keys ==> k >= old(rank(cmp, cur(c).X)) || k <= rank(cmp, cur(c).X)
+//@   ensures  [C03,C04] first: c != nil && old(len(c.path)) != 0 && len(c.path) == 0 ==> forall k int :: {k in old(c.path[0]).keys} k in old(c.path[0]).keys ==> k >= old(rank(cmp, cur(c).X))
 //@   call findPrev#1: cmp = cmp
-//@   loop 1: invariant [C03] ord: ordPath(c.path, cmp)
-//@   loop 1: invariant [C03] greatest: len(c.path) > old(len(c.path)) ==> cur(c) in old(cur(c).left).desc && rank(cmp, cur(c).X) in old(cur(c).left).keys && forall k int :: {k in old(cur(c).left).keys} k in old(cur(c).left).keys ==> k in cur(c).keys || k < rank(cmp, cur(c).X)
-//@   ensures  [C03] invalid: c != nil && old(len(c.path)) == 0 ==> len(c.path) == 0
-//@   ensures  [C03] down: c != nil && old(len(c.path)) != 0 && old(cur(c).left) != nil ==> len(c.path) > old(len(c.path)) && samePrefix(c, old(len(c.path))) && cur(c).right == nil
-//@   ensures  [C03] downFirst: c != nil && old(len(c.path)) != 0 && old(cur(c).left) != nil ==> forall a int, b int :: {c.path[a], c.path[b]} b == old(len(c.path)) && b == a + 1 ==> c.path[b] == c.path[a].left
-//@   ensures  [C03] downRest: c != nil && old(len(c.path)) != 0 && old(cur(c).left) != nil ==> forall a int, b int :: {c.path[a], c.path[b]} old(len(c.path)) < b && b == a + 1 && b < len(c.path) ==> c.path[b] == c.path[a].right
-//@   ensures  [C03] up: c != nil && old(len(c.path)) != 0 && old(cur(c).left) == nil ==> len(c.path) < old(len(c.path)) && samePrefix(c, len(c.path))
-//@   ensures  [C03] upTurn: c != nil && old(len(c.path)) != 0 && old(cur(c).left) == nil && len(c.path) > 0 ==> forall a int, b int :: {old(c.path[a]), old(c.path[b])} b == len(c.path) && b == a + 1 ==> old(c.path[b]) == old(c.path[a].right)
-//@   ensures  [C03] upSkipped: c != nil && old(len(c.path)) != 0 && old(cur(c).left) == nil ==> forall a int, b int :: {old(c.path[a]), old(c.path[b])} len(c.path) <= a && b == a + 1 && b < old(len(c.path)) ==> old(c.path[b]) != old(c.path[a].right)
+//@   loop 1: invariant [C03,C04] ord: ordPath(c.path, cmp)
+//@   at before "c.path = append(c.path, max)": assert [C03,C04] max in c.path[0].desc && max in old(cur(c).left).desc
+//@   loop 1: invariant [C03,C04] greatest: len(c.path) > old(len(c.path)) ==> cur(c) in old(cur(c).left).desc && rank(cmp, cur(c).X) in old(cur(c).left).keys && forall k int :: {k in old(cur(c).left).keys} k in old(cur(c).left).keys ==> k in cur(c).keys || k < rank(cmp, cur(c).X)
+//@   ensures  [C03,C04] invalid: c != nil && old(len(c.path)) == 0 ==> len(c.path) == 0
+//@   ensures  [C03,C04] down: c != nil && old(len(c.path)) != 0 && old(cur(c).left) != nil ==> len(c.path) > old(len(c.path)) && samePrefix(c, old(len(c.path))) && cur(c).right == nil
+//@   ensures  [C03,C04] downFirst: c != nil && old(len(c.path)) != 0 && old(cur(c).left) != nil ==> forall a int, b int :: {c.path[a], c.path[b]} b == old(len(c.path)) && b == a + 1 ==> c.path[b] == c.path[a].left
+//@   ensures  [C03,C04] downRest: c != nil && old(len(c.path)) != 0 && old(cur(c).left) != nil ==> forall a int, b int :: {c.path[a], c.path[b]} old(len(c.path)) < b && b == a + 1 && b < len(c.path) ==> c.path[b] == c.path[a].right
+//@   ensures  [C03,C04] up: c != nil && old(len(c.path)) != 0 && old(cur(c).left) == nil ==> len(c.path) < old(len(c.path)) && samePrefix(c, len(c.path))
+//@   ensures  [C03,C04] upTurn: c != nil && old(len(c.path)) != 0 && old(cur(c).left) == nil && len(c.path) > 0 ==> forall a int, b int :: {old(c.path[a]), old(c.path[b])} b == len(c.path) && b == a + 1 ==> old(c.path[b]) == old(c.path[a].right)
+//@   ensures  [C03,C04] upSkipped: c != nil && old(len(c.path)) != 0 && old(cur(c).left) == nil ==> forall a int, b int :: {old(c.path[a]), old(c.path[b])} len(c.path) <= a && b == a + 1 && b < old(len(c.path)) ==> old(c.path[b]) != old(c.path[a].right)
 //@   modifies c.path, backing(c.path)
-//@   loop 1: invariant [C03] shape: c != nil && old(len(c.path)) != 0 && len(c.path) >= old(len(c.path)) && pathOK(c) && other_arrays_unchanged(c.path) && (c.path.base == old(c.path.base) || fresh(c.path))
-//@   loop 1: invariant [C03] prefix: samePrefix(c, old(len(c.path)))
-//@   loop 1: invariant [C03] cursor: (len(c.path) == old(len(c.path)) ==> max != nil && max == cur(c).left) && (len(c.path) > old(len(c.path)) ==> max == cur(c).right)
-//@   loop 1: invariant [C03] first: len(c.path) > old(len(c.path)) ==> forall a int, b int :: {c.path[a], c.path[b]} b == old(len(c.path)) && b == a + 1 ==> c.path[b] == c.path[a].left
-//@   loop 1: invariant [C03] rest: forall a int, b int :: {c.path[a], c.path[b]} old(len(c.path)) < b && b == a + 1 && b < len(c.path) ==> c.path[b] == c.path[a].right
+//@   loop 1: invariant [C03,C04] shape: c != nil && old(len(c.path)) != 0 && len(c.path) >= old(len(c.path)) && pathOK(c) && other_arrays_unchanged(c.path) && (c.path.base == old(c.path.base) || fresh(c.path))
+//@   loop 1: invariant [C03,C04] prefix: samePrefix(c, old(len(c.path)))
+//@   loop 1: invariant [C03,C04] cursor: (len(c.path) == old(len(c.path)) ==> max != nil && max == cur(c).left) && (len(c.path) > old(len(c.path)) ==> max == cur(c).right)
+//@   loop 1: invariant [C03,C04] first: len(c.path) > old(len(c.path)) ==> forall a int, b int :: {c.path[a], c.path[b]} b == old(len(c.path)) && b == a + 1 ==> c.path[b] == c.path[a].left
+//@   loop 1: invariant [C03,C04] rest: forall a int, b int :: {c.path[a], c.path[b]} old(len(c.path)) < b && b == a + 1 && b < len(c.path) ==> c.path[b] == c.path[a].right
 //@
 //@ func (*Cursor).Clone
 //@   ghost cmp func(T, T) int
@@ -471,52 +474,99 @@ package stree
 //@
 //@ func (*node).pathTo
 //@   role compare ord
-//@   requires [C03] treeRO(n, compare)
-//@   ensures [C03] ord: ordPath(result, compare)
-//@   ensures [C03] present: inK(n, rank(compare, key)) <==> (len(result) > 0 && ord(compare, key, result[len(result) - 1].X) == 0)
-//@   loop 1: invariant [C03] ord: ordPath(path, compare) && (cur != nil ==> n != nil && cur in n.desc)
-//@   loop 1: invariant [C03] search: inK(n, rank(compare, key)) <==> inK(cur, rank(compare, key))
-//@   ensures [C03] path: nodePath(result) && (n == nil <==> len(result) == 0) && (len(result) > 0 ==> result[0] == n)
-//@   ensures [C03] found: len(result) > 0 ==> ord(compare, key, result[len(result) - 1].X) == 0 || (ord(compare, key, result[len(result) - 1].X) < 0 && result[len(result) - 1].left == nil) || (ord(compare, key, result[len(result) - 1].X) > 0 && result[len(result) - 1].right == nil)
-//@   ensures [C03] steered: forall a int, b int :: {result[a], result[b]} 0 <= a && b == a + 1 && b < len(result) ==> (ord(compare, key, result[a].X) < 0 && result[b] == result[a].left) || (ord(compare, key, result[a].X) > 0 && result[b] == result[a].right)
-//@   loop 1: invariant [C03] path: nodePath(path) && (len(path) == 0 ==> cur == n) && (len(path) > 0 ==> path[0] == n) && (len(path) == 0 ==> cap(path) == 0) && (len(path) > 0 ==> fresh(path)) && old_arrays_unchanged(path)
-//@   loop 1: invariant [C03] next: len(path) > 0 ==> (ord(compare, key, path[len(path) - 1].X) < 0 && cur == path[len(path) - 1].left) || (ord(compare, key, path[len(path) - 1].X) > 0 && cur == path[len(path) - 1].right)
-//@   loop 1: invariant [C03] steered: forall a int, b int :: {path[a], path[b]} 0 <= a && b == a + 1 && b < len(path) ==> (ord(compare, key, path[a].X) < 0 && path[b] == path[a].left) || (ord(compare, key, path[a].X) > 0 && path[b] == path[a].right)
+//@   requires [C01,C03,C04] treeRO(n, compare)
+//@   ensures [C01,C03,C04] ord: ordPath(result, compare)
+//@   ensures [C01,C03,C04] present: inK(n, rank(compare, key)) <==> (len(result) > 0 && ord(compare, key, result[len(result) - 1].X) == 0)
+//@   ensures [C01,C03,C04] keySide: forall j int, k int :: {result[j], k in n.keys} 0 <= j && j < len(result) && k in n.keys && !(k in result[j].keys) ==> ((k < rank(compare, key)) <==> (k < rank(compare, result[j].X)))
+//@   loop 1: invariant [C01,C03,C04] keySide: forall j int, k int :: {path[j], k in n.keys} 0 <= j && j < len(path) && k in n.keys && !(k in path[j].keys) ==> ((k < rank(compare, key)) <==> (k < rank(compare, path[j].X)))
+//@   loop 1: invariant [C01,C03,C04] keySideCur: cur != nil ==> forall k int :: {k in n.keys} k in n.keys && !(k in cur.keys) ==> ((k < rank(compare, key)) <==> (k < rank(compare, cur.X)))
+//@   loop 1: invariant [C01,C03,C04] ord: ordPath(path, compare) && (cur != nil ==> n != nil && cur in n.desc)
+//@   loop 1: invariant [C01,C03,C04] search: inK(n, rank(compare, key)) <==> inK(cur, rank(compare, key))
+//@   ensures [C01,C03,C04] path: nodePath(result) && (n == nil <==> len(result) == 0) && (len(result) > 0 ==> result[0] == n)
+//@   ensures [C01,C03,C04] found: len(result) > 0 ==> ord(compare, key, result[len(result) - 1].X) == 0 || (ord(compare, key, result[len(result) - 1].X) < 0 && result[len(result) - 1].left == nil) || (ord(compare, key, result[len(result) - 1].X) > 0 && result[len(result) - 1].right == nil)
+//@   ensures [C01,C03,C04] steered: forall a int, b int :: {result[a], result[b]} 0 <= a && b == a + 1 && b < len(result) ==> (ord(compare, key, result[a].X) < 0 && result[b] == result[a].left) || (ord(compare, key, result[a].X) > 0 && result[b] == result[a].right)
+//@   loop 1: invariant [C01,C03,C04] path: nodePath(path) && (len(path) == 0 ==> cur == n) && (len(path) > 0 ==> path[0] == n) && (len(path) == 0 ==> cap(path) == 0) && (len(path) > 0 ==> fresh(path)) && old_arrays_unchanged(path)
+//@   loop 1: invariant [C01,C03,C04] next: len(path) > 0 ==> (ord(compare, key, path[len(path) - 1].X) < 0 && cur == path[len(path) - 1].left) || (ord(compare, key, path[len(path) - 1].X) > 0 && cur == path[len(path) - 1].right)
+//@   loop 1: invariant [C01,C03,C04] steered: forall a int, b int :: {path[a], path[b]} 0 <= a && b == a + 1 && b < len(path) ==> (ord(compare, key, path[a].X) < 0 && path[b] == path[a].left) || (ord(compare, key, path[a].X) > 0 && path[b] == path[a].right)
 //@
 //@ func (*Tree).Cursor
-//@   ensures [C03] absent: result == nil || (fresh(result) && len(result.path) > 0 && pathOK(result) && result.path[0] == t.root && ord(t.compare, cur(result).X, key) == 0)
-//@   ensures [C03] steered: result != nil ==> forall a int, b int :: {result.path[a], result.path[b]} 0 <= a && b == a + 1 && b < len(result.path) ==> (ord(t.compare, key, result.path[a].X) < 0 && result.path[b] == result.path[a].left) || (ord(t.compare, key, result.path[a].X) > 0 && result.path[b] == result.path[a].right)
-//@   requires [C03] treeInvRO(t)
-//@   ensures [C03] ord: result != nil ==> ordPath(result.path, t.compare)
-//@   ensures [C03] present: result != nil <==> rank(t.compare, key) in t.elems
+//@   ensures [C03,C04] absent: result == nil || (fresh(result) && len(result.path) > 0 && pathOK(result) && result.path[0] == t.root && ord(t.compare, cur(result).X, key) == 0)
+//@   ensures [C03,C04] steered: result != nil ==> forall a int, b int :: {result.path[a], result.path[b]} 0 <= a && b == a + 1 && b < len(result.path) ==> (ord(t.compare, key, result.path[a].X) < 0 && result.path[b] == result.path[a].left) || (ord(t.compare, key, result.path[a].X) > 0 && result.path[b] == result.path[a].right)
+//@   requires [C03,C04] treeInvRO(t)
+//@   ensures [C03,C04] ord: result != nil ==> ordPath(result.path, t.compare)
+//@   ensures [C03,C04] present: result != nil <==> rank(t.compare, key) in t.elems
 //@
 //@ func (*Tree).Root
-//@   requires [C03] treeInvRO(t)
-//@   ensures [C03] ord: result != nil ==> ordPath(result.path, t.compare)
-//@   ensures [C03] empty: t.root == nil ==> result == nil
-//@   ensures [C03] root: t.root != nil ==> result != nil && fresh(result) && len(result.path) == 1 && result.path[0] == t.root && pathOK(result)
+//@   requires [C03,C04] treeInvRO(t)
+//@   ensures [C03,C04] ord: result != nil ==> ordPath(result.path, t.compare)
+//@   ensures [C03,C04] empty: t.root == nil ==> result == nil
+//@   ensures [C03,C04] root: t.root != nil ==> result != nil && fresh(result) && fresh(result.path) && len(result.path) == 1 && result.path[0] == t.root && pathOK(result)
 //@
 // In-order traversal: the keys of the subtree are yielded in strictly ascending rank order, each the stored
 // representative of its class, all of them when the callback never says stop (the count equals the node count).
 //@ func (*node).inorder
 //@   ghost cmp func(T, T) int
 //@   role f yield
-//@   requires [C01] treeOK(n, cmp)
-//@   ensures  [C01] count: ncalls(f) >= old(ncalls(f)) && ncalls(f) - old(ncalls(f)) <= cntOf(n) && (result ==> ncalls(f) - old(ncalls(f)) == cntOf(n))
-//@   ensures  [C01] members: forall j int :: {callarg(f, j)} old(ncalls(f)) <= j && j < ncalls(f) ==> inK(n, rank(cmp, callarg(f, j))) && callarg(f, j) == n.rep[rank(cmp, callarg(f, j))]
-//@   ensures  [C01] ascending: forall a int, b int :: {callarg(f, a), callarg(f, b)} old(ncalls(f)) <= a && a < b && b < ncalls(f) ==> rank(cmp, callarg(f, a)) < rank(cmp, callarg(f, b))
-//@   ensures  [C01] went: forall j int :: {callret(f, j)} old(ncalls(f)) <= j && j < ncalls(f) - 1 ==> callret(f, j)
-//@   ensures  [C01] stopped: !result ==> ncalls(f) > old(ncalls(f)) && !callret(f, ncalls(f) - 1)
-//@   ensures  [C01] finished: result ==> forall j int :: {callret(f, j)} old(ncalls(f)) <= j && j < ncalls(f) ==> callret(f, j)
-//@   ensures  [C01] older: forall j int :: {callarg(f, j)} {callret(f, j)} 0 <= j && j < old(ncalls(f)) ==> callarg(f, j) == old(callarg(f, j)) && callret(f, j) == old(callret(f, j))
+//@   requires [C01,C03,C04] treeOK(n, cmp)
+//@   ensures  [C01,C03,C04] count: ncalls(f) >= old(ncalls(f)) && ncalls(f) - old(ncalls(f)) <= cntOf(n) && (result ==> ncalls(f) - old(ncalls(f)) == cntOf(n))
+//@   ensures  [C01,C03,C04] members: forall j int :: {callarg(f, j)} old(ncalls(f)) <= j && j < ncalls(f) ==> inK(n, rank(cmp, callarg(f, j))) && callarg(f, j) == n.rep[rank(cmp, callarg(f, j))]
+//@   ensures  [C01,C03,C04] ascending: forall a int, b int :: {callarg(f, a), callarg(f, b)} old(ncalls(f)) <= a && a < b && b < ncalls(f) ==> rank(cmp, callarg(f, a)) < rank(cmp, callarg(f, b))
+//@   ensures  [C01,C03,C04] went: forall j int :: {callret(f, j)} old(ncalls(f)) <= j && j < ncalls(f) - 1 ==> callret(f, j)
+//@   ensures  [C01,C03,C04] stopped: !result ==> ncalls(f) > old(ncalls(f)) && !callret(f, ncalls(f) - 1)
+//@   ensures  [C01,C03,C04] finished: result ==> forall j int :: {callret(f, j)} old(ncalls(f)) <= j && j < ncalls(f) ==> callret(f, j)
+//@   ensures  [C01,C03,C04] older: forall j int :: {callarg(f, j)} {callret(f, j)} 0 <= j && j < old(ncalls(f)) ==> callarg(f, j) == old(callarg(f, j)) && callret(f, j) == old(callret(f, j))
 //@   modifies calls(f)
 //@   call inorder#1: cmp = cmp
-//@   loop 1: invariant [C01] older: forall j int :: {callarg(f, j)} {callret(f, j)} 0 <= j && j < old(ncalls(f)) ==> callarg(f, j) == old(callarg(f, j)) && callret(f, j) == old(callret(f, j))
-//@   loop 1: invariant [C01] shape: treeOK(old(n), cmp) && (n != nil ==> old(n) != nil && n in old(n).desc)
-//@   loop 1: invariant [C01] count: ncalls(f) >= old(ncalls(f)) && ncalls(f) - old(ncalls(f)) + cntOf(n) == cntOf(old(n))
-//@   loop 1: invariant [C01] members: forall j int :: {callarg(f, j)} {callret(f, j)} old(ncalls(f)) <= j && j < ncalls(f) ==> inK(old(n), rank(cmp, callarg(f, j))) && callarg(f, j) == old(n).rep[rank(cmp, callarg(f, j))] && callret(f, j)
-//@   loop 1: invariant [C01] below: forall j int :: {callarg(f, j)} old(ncalls(f)) <= j && j < ncalls(f) ==> (forall k int :: {k in n.keys} inK(n, k) ==> rank(cmp, callarg(f, j)) < k)
-//@   loop 1: invariant [C01] ascending: forall a int, b int :: {callarg(f, a), callarg(f, b)} old(ncalls(f)) <= a && a < b && b < ncalls(f) ==> rank(cmp, callarg(f, a)) < rank(cmp, callarg(f, b))
+//@   loop 1: invariant [C01,C03,C04] older: forall j int :: {callarg(f, j)} {callret(f, j)} 0 <= j && j < old(ncalls(f)) ==> callarg(f, j) == old(callarg(f, j)) && callret(f, j) == old(callret(f, j))
+//@   loop 1: invariant [C01,C03,C04] shape: treeOK(old(n), cmp) && (n != nil ==> old(n) != nil && n in old(n).desc)
+//@   loop 1: invariant [C01,C03,C04] count: ncalls(f) >= old(ncalls(f)) && ncalls(f) - old(ncalls(f)) + cntOf(n) == cntOf(old(n))
+//@   loop 1: invariant [C01,C03,C04] members: forall j int :: {callarg(f, j)} {callret(f, j)} old(ncalls(f)) <= j && j < ncalls(f) ==> inK(old(n), rank(cmp, callarg(f, j))) && callarg(f, j) == old(n).rep[rank(cmp, callarg(f, j))] && callret(f, j)
+//@   loop 1: invariant [C01,C03,C04] below: forall j int :: {callarg(f, j)} old(ncalls(f)) <= j && j < ncalls(f) ==> (forall k int :: {k in n.keys} inK(n, k) ==> rank(cmp, callarg(f, j)) < k)
+//@   loop 1: invariant [C01,C03,C04] ascending: forall a int, b int :: {callarg(f, a), callarg(f, b)} old(ncalls(f)) <= a && a < b && b < ncalls(f) ==> rank(cmp, callarg(f, a)) < rank(cmp, callarg(f, b))
+//@
+// inorderAfter: what is yielded are stored keys of the subtree, not smaller than key, in strictly ascending order, the
+// first of them being the least such key of the whole subtree (and when nothing is yielded and the walk was not
+// stopped, there is none). That *every* key >= key is yielded (no gaps further on) is not stated: bounded stand-in.
+//@ func (*node).inorderAfter
+//@   role compare ord
+//@   role f yield
+//@   requires [C01,C04] treeOK(n, compare)
+//@   ensures  [C01,C04] members: forall j int :: {callarg(f, j)} old(ncalls(f)) <= j && j < ncalls(f) ==> inK(n, rank(compare, callarg(f, j))) && rank(compare, callarg(f, j)) >= rank(compare, key) && callarg(f, j) == n.rep[rank(compare, callarg(f, j))]
+//@   ensures  [C01,C04] ascending: forall a int, b int :: {callarg(f, a), callarg(f, b)} old(ncalls(f)) <= a && a < b && b < ncalls(f) ==> rank(compare, callarg(f, a)) < rank(compare, callarg(f, b))
+//@   ensures  [C01,C04] first: ncalls(f) > old(ncalls(f)) ==> forall k int :: {k in n.keys} inK(n, k) && k >= rank(compare, key) ==> k >= rank(compare, callarg(f, old(ncalls(f))))
+//@   ensures  [C01,C04] none: result && ncalls(f) == old(ncalls(f)) ==> forall k int :: {k in n.keys} inK(n, k) ==> k < rank(compare, key)
+//@   ensures  [C01,C04] count: ncalls(f) >= old(ncalls(f))
+//@   ensures  [C01,C04] went: forall j int :: {callret(f, j)} old(ncalls(f)) <= j && j < ncalls(f) - 1 ==> callret(f, j)
+//@   ensures  [C01,C04] stopped: !result ==> ncalls(f) > old(ncalls(f)) && !callret(f, ncalls(f) - 1)
+//@   ensures  [C01,C04] older: forall j int :: {callarg(f, j)} {callret(f, j)} 0 <= j && j < old(ncalls(f)) ==> callarg(f, j) == old(callarg(f, j)) && callret(f, j) == old(callret(f, j))
+//@   modifies calls(f)
+//@   call inorder#1: cmp = compare
+//@   loop 1: invariant [C01,C04] idx: -1 <= i && i < len(path) && (i == len(path) - 1 ==> ncalls(f) == old(ncalls(f)))
+//@   loop 1: invariant [C01,C04] older: forall j int :: {callarg(f, j)} {callret(f, j)} 0 <= j && j < old(ncalls(f)) ==> callarg(f, j) == old(callarg(f, j)) && callret(f, j) == old(callret(f, j))
+//@   loop 1: invariant [C01,C04] count: ncalls(f) >= old(ncalls(f))
+//@   loop 1: invariant [C01,C04] went: forall j int :: {callret(f, j)} old(ncalls(f)) <= j && j < ncalls(f) ==> callret(f, j)
+//@   loop 1: invariant [C01,C04] members: forall j int :: {callarg(f, j)} old(ncalls(f)) <= j && j < ncalls(f) ==> inK(n, rank(compare, callarg(f, j))) && rank(compare, callarg(f, j)) >= rank(compare, key) && callarg(f, j) == n.rep[rank(compare, callarg(f, j))]
+//@   loop 1: invariant [C01,C04] ascending: forall a int, b int :: {callarg(f, a), callarg(f, b)} old(ncalls(f)) <= a && a < b && b < ncalls(f) ==> rank(compare, callarg(f, a)) < rank(compare, callarg(f, b))
+//@   loop 1: invariant [C01,C04] below: i + 1 < len(path) ==> forall j int :: {callarg(f, j)} old(ncalls(f)) <= j && j < ncalls(f) ==> rank(compare, callarg(f, j)) in path[i + 1].keys
+//@   loop 1: invariant [C01,C04] nothing: ncalls(f) == old(ncalls(f)) && i + 1 < len(path) ==> forall k int :: {k in path[i + 1].keys} k in path[i + 1].keys ==> k < rank(compare, key)
+//@   loop 1: invariant [C01,C04] first: ncalls(f) > old(ncalls(f)) ==> forall k int :: {k in n.keys} inK(n, k) && k >= rank(compare, key) ==> k >= rank(compare, callarg(f, old(ncalls(f))))
+//@   at after "cur := path[i]": assert [C01,C04] cur != nil && cur in n.desc
+//@   at after "cur := path[i]": assert [C01,C04] forall k int :: {k in n.keys} k in n.keys && !(k in cur.keys) ==> ((k < rank(compare, key)) <==> (k < rank(compare, cur.X)))
+//@   at after "cur := path[i]": assert [C01,C04] ncalls(f) == old(ncalls(f)) && ord(compare, cur.X, key) >= 0 ==> forall k int :: {k in cur.keys} k in cur.keys && k >= rank(compare, key) ==> k >= rank(compare, cur.X)
+//@   at after "cur := path[i]": assert [C01,C04] ncalls(f) == old(ncalls(f)) && ord(compare, cur.X, key) >= 0 ==> forall k int :: {k in n.keys} inK(n, k) && k >= rank(compare, key) ==> k >= rank(compare, cur.X)
+//@   loop 1: decreases i + 1
+//@
+//@ func (*Tree).InorderAfter
+//@   seq yield
+//@   role yield yield
+//@   requires [C01,C04] treeInv(t)
+//@   ensures  [C01,C04] members: forall j int :: {callarg(yield, j)} old(ncalls(yield)) <= j && j < ncalls(yield) ==> rank(t.compare, callarg(yield, j)) in t.elems && rank(t.compare, callarg(yield, j)) >= rank(t.compare, key) && callarg(yield, j) == t.vals[rank(t.compare, callarg(yield, j))]
+//@   ensures  [C01,C04] ascending: forall a int, b int :: {callarg(yield, a), callarg(yield, b)} old(ncalls(yield)) <= a && a < b && b < ncalls(yield) ==> rank(t.compare, callarg(yield, a)) < rank(t.compare, callarg(yield, b))
+//@   ensures  [C01,C04] first: ncalls(yield) > old(ncalls(yield)) ==> forall k int :: {k in t.elems} k in t.elems && k >= rank(t.compare, key) ==> k >= rank(t.compare, callarg(yield, old(ncalls(yield))))
+//@   ensures  [C01,C04] none: ncalls(yield) == old(ncalls(yield)) ==> forall k int :: {k in t.elems} k in t.elems ==> k < rank(t.compare, key)
+//@   ensures  [C01,C04] count: ncalls(yield) >= old(ncalls(yield))
+//@   ensures  [C01,C04] went: forall j int :: {callret(yield, j)} old(ncalls(yield)) <= j && j < ncalls(yield) - 1 ==> callret(yield, j)
+//@   modifies calls(yield)
 //@
 //@ func (*Tree).Inorder
 //@   role yield yield
@@ -532,10 +582,10 @@ package stree
 //@ func (*Cursor).Inorder
 //@   ghost cmp func(T, T) int
 //@   role yield yield
-//@   requires [C01] c != nil ==> (forall k int :: {c.path[k]} 0 <= k && k < len(c.path) ==> c.path[k] != nil) && (len(c.path) > 0 ==> treeOK(c.path[len(c.path) - 1], cmp))
-//@   ensures  [C01] invalid: c == nil || len(c.path) == 0 ==> ncalls(yield) == old(ncalls(yield))
-//@   ensures  [C01] members: c != nil && len(c.path) > 0 ==> forall j int :: {callarg(yield, j)} old(ncalls(yield)) <= j && j < ncalls(yield) ==> inK(c.path[len(c.path) - 1], rank(cmp, callarg(yield, j)))
-//@   ensures  [C01] ascending: forall a int, b int :: {callarg(yield, a), callarg(yield, b)} old(ncalls(yield)) <= a && a < b && b < ncalls(yield) ==> rank(cmp, callarg(yield, a)) < rank(cmp, callarg(yield, b))
-//@   ensures  [C01] count: c != nil && len(c.path) > 0 ==> ncalls(yield) - old(ncalls(yield)) <= cntOf(c.path[len(c.path) - 1]) && (ncalls(yield) - old(ncalls(yield)) < cntOf(c.path[len(c.path) - 1]) ==> ncalls(yield) > old(ncalls(yield)) && !callret(yield, ncalls(yield) - 1))
+//@   requires [C01,C03] c != nil ==> (forall k int :: {c.path[k]} 0 <= k && k < len(c.path) ==> c.path[k] != nil) && (len(c.path) > 0 ==> treeOK(c.path[len(c.path) - 1], cmp))
+//@   ensures  [C01,C03] invalid: c == nil || len(c.path) == 0 ==> ncalls(yield) == old(ncalls(yield))
+//@   ensures  [C01,C03] members: c != nil && len(c.path) > 0 ==> forall j int :: {callarg(yield, j)} old(ncalls(yield)) <= j && j < ncalls(yield) ==> inK(c.path[len(c.path) - 1], rank(cmp, callarg(yield, j)))
+//@   ensures  [C01,C03] ascending: forall a int, b int :: {callarg(yield, a), callarg(yield, b)} old(ncalls(yield)) <= a && a < b && b < ncalls(yield) ==> rank(cmp, callarg(yield, a)) < rank(cmp, callarg(yield, b))
+//@   ensures  [C01,C03] count: c != nil && len(c.path) > 0 ==> ncalls(yield) - old(ncalls(yield)) <= cntOf(c.path[len(c.path) - 1]) && (ncalls(yield) - old(ncalls(yield)) < cntOf(c.path[len(c.path) - 1]) ==> ncalls(yield) > old(ncalls(yield)) && !callret(yield, ncalls(yield) - 1))
 //@   modifies calls(yield)
 //@   call inorder#1: cmp = cmp
